@@ -23,6 +23,7 @@ from sa.pyfront import Program
 from sa.symex import Interp
 
 RULES = {
+    "R-C05-f": "every near-zero test that decides 'this differenced counter is zero' (adjust_zeros' default, ffunc_count/xfunc_count.reduce) uses isclose(x, 0) with NumPy's default absolute tolerance, as documented - not a narrower one",
     "R-C05-e": "every index-cube grand total is the all-rows instance of its per-cell value (per fact column), so the cell reconstructed at the common coordinate does not depend on which category is common",
     "R-C05-a": "differencing writes at dim.common of the dimension whose axis is being differenced",
     "R-C05-b": "corner (grand total) values carry no dependence on any dimension's encoding",
@@ -179,6 +180,7 @@ def main(tier):
     # of what the cells hold (column by column for several fact columns)
     C = AT.Collector()
     n = AT.rule_corner_cell(prog, C, "R-C05-e")
+    n_t = AT.rule_zero_snap_tolerance(prog, C, "R-C05-f")
     for rule, status, where, cons, detail, wit in C.items:
         rep.add(rule, where, cons, status, detail, True, wit)
     rep.floor("R-C05-e", 30, n)
